@@ -57,6 +57,8 @@ def to_z3(v):
         return z3.RealVal(v)
     if isinstance(v, float):
         return z3.RealVal(Fraction(v))
+    if isinstance(v, NaNType):
+        return NAN_CONST
     raise TypeError(f"not a scalar: {v!r}")
 
 
@@ -82,6 +84,7 @@ class NaNType:
 
 
 NAN = NaNType()
+NAN_CONST = z3.Real("NaN")       # NaN inside symbolic real arrays: a distinguished constant with isnan(NaN)
 
 
 class SArr:
